@@ -810,5 +810,27 @@ theorem crel_core {ls : Nat} {cap : Option Nat} {s : CState} {r : RState} {x : N
       rw [hp]
       exact hins
 
+/-! ### the executable hypotheses -/
+
+theorem snextOk_of_B : ∀ {xs : Sched}, schedNextOkB xs = true → SNextOk xs
+  | [], _ => trivial
+  | x :: rest, h => by
+    simp only [schedNextOkB, Bool.and_eq_true, decide_eq_true_eq] at h
+    exact ⟨h.1, snextOk_of_B h.2⟩
+
+theorem sord_of_B : ∀ {xs : Sched}, schedOrdB xs = true → SOrd xs
+  | [], _ => trivial
+  | x :: rest, h => by
+    simp only [schedOrdB, Bool.and_eq_true, List.all_eq_true, Bool.not_eq_true', Bool.or_eq_true,
+      Bool.and_eq_false_imp, decide_eq_true_eq, decide_eq_false_iff_not] at h
+    refine ⟨?_, sord_of_B h.2⟩
+    intro y hy
+    obtain ⟨h1, h2⟩ := h.1 y hy
+    refine ⟨h1, ?_⟩
+    rintro ⟨k1, k2⟩
+    rcases h2 with h2 | h2
+    · exact absurd k2 (h2 k1)
+    · exact h2
+
 end Traffic
 end Ft
